@@ -139,12 +139,15 @@ func ksOp(keyIDs []string, kssSecret, kssRand *big.Int, hw []byte, context, nonc
 
 func genC14(g *Rng, tier string, emit func(Op)) {
 	ka, kb, kc := fixedKey("k1024a", true), fixedKey("k1024b", true), fixedKey("k2048", true)
-	for n := 1; n <= 3; n++ {
-		emit(legacyTwoDisclosuresOp(g, ka, n, n == 2))
-	}
-	for _, issig := range []bool{false, true} {
-		emit(witnessUpdateBetweenMessagesOp(g, ka, issig))
-	}
+	// (the recorded runs come last, so that the sessions below do not depend on what they draw)
+	defer func() {
+		for n := 1; n <= 3; n++ {
+			emit(legacyTwoDisclosuresOp(g, ka, n, n == 2))
+		}
+		for _, issig := range []bool{false, true} {
+			emit(witnessUpdateBetweenMessagesOp(g, ka, issig))
+		}
+	}()
 	// two keys of one issuer (counters 0 and 1): the protocol identifies keys by issuer AND counter
 	kd := rotatedKey(ka, kb, 1)
 	pool := []*KeyPair{ka, kb, kc, kd}
@@ -171,7 +174,9 @@ func genC14(g *Rng, tier string, emit func(Op)) {
 		part := map[string]*gabikeys.PublicKey{}
 		var partIDs []string
 		for _, k := range pool {
-			if g.coin() || len(part) == 0 {
+			// round 1 has a fixed shape: two disclosures under keys of different sizes (1024 and 2048
+			// bits), every key taking part - the server's one randomiser has to fit the smaller key
+			if g.coin() || len(part) == 0 || r == 1 {
 				part[k.id] = k.pk
 				partIDs = append(partIDs, k.id)
 			}
@@ -186,12 +191,15 @@ func genC14(g *Rng, tier string, emit func(Op)) {
 		}
 		for i := 0; i < n; i++ {
 			kp := pool[g.intn(len(pool))]
+			if r == 1 {
+				kp = []*KeyPair{ka, kc}[i%2]
+			}
 			kps = append(kps, kp)
 			var ksP *big.Int
 			if _, ok := part[kp.id]; ok {
 				ksP = new(big.Int).Exp(kp.pk.R[0], kssSecret, kp.pk.N)
 			}
-			if g.intn(3) == 0 {
+			if g.intn(3) == 0 && r != 1 {
 				b, err := gabi.NewCredentialBuilder(kp.pk, context, userSecret, g.bits(80), ksP, nil)
 				if err != nil {
 					panic(err)
